@@ -219,7 +219,7 @@ func c10Corruptions(world, other *rvWorld, base *Update) []c10Cor {
 func TestVerifC10(t *testing.T) {
 	r := vkit.Start(t, "C10", "update-corruptions", 240*time.Second, 1500*time.Second)
 	defer r.Finish()
-	r.Rule = "base updates with 0,1,4,8,9 events of a 8-revocation history; every single corruption of the menu (event value/index +-1, swaps, delete/duplicate/insert, every byte flip / truncation length / extension / algorithm code / shorter well-formed digest of every parent hash, every byte of the signed accumulator blob, key counter +-1, accumulator substituted by every other validly signed one or by another key's, foreign events), thorough: every pair from the reduced menu; x transport {memory, JSON, CBOR, and JSON / CBOR with the corruption made on the decoded object} x operations {Update.Verify, Witness.Update on witnesses just before / inside / at / ahead of the message's window incl. re-signed accumulators with a later time, Update.Prepend, EventList.Verify}; non-trivial = corruption whose received message differs from the base; oracle: independent validator - success => authentic, rejection => receiver state unchanged"
+	r.Rule = "base updates with 0,1,4,8,9 events of a 8-revocation history; every single corruption of the menu (event value/index +-1, swaps, delete/duplicate/insert, every byte flip / truncation length / extension / algorithm code / shorter well-formed digest of every parent hash, every byte of the signed accumulator blob, key counter +-1, accumulator substituted by every other validly signed one or by another key's, foreign events), thorough: every pair from the reduced menu; x transport {memory, JSON, CBOR, and JSON / CBOR with the corruption made on the decoded object} x operations {Update.Verify, Witness.Update on witnesses just before / inside / at / ahead of the message's window incl. re-signed accumulators with a later time, Update.Prepend (onto an update with and without events of its own), EventList.Verify}; non-trivial = corruption whose received message differs from the base; oracle: independent validator - success => authentic, rejection => receiver state unchanged"
 	rvInstallEnv(t, "C10", r.Seed)
 	sk, pk := rvKeys(32, 7)
 	sk2, pk2 := rvKeys(32, 7)
@@ -462,6 +462,47 @@ func TestVerifC10(t *testing.T) {
 								r.Violate("C10|Update.Prepend-cached-wrong-product", desc, rep)
 							}
 						}
+					}
+				}
+				// (3b) Prepend onto an update that holds no events of its own (only the signed accumulator the
+				// received events should lead up to)
+				if len(recv.Events) >= 1 && bs.b == H {
+					for _, premark := range []bool{false, true} {
+						r.Eval()
+						var el *EventList
+						if premark {
+							b, err := json.Marshal(NewEventList(c10CopyEvents(recv.Events)...))
+							if err != nil {
+								continue
+							}
+							el = &EventList{ComputeProduct: true}
+							if json.Unmarshal(b, el) != nil {
+								continue
+							}
+						} else {
+							el = NewEventList(c10CopyEvents(recv.Events)...)
+						}
+						tail := world.Window(H+1, H, 0)
+						if _, err := tail.Verify(pk); err != nil {
+							r.HarnessError("eventless update does not verify: %v", err)
+							return
+						}
+						var perr error
+						pan, msg := vkit.Guard(func() { perr = tail.Prepend(el) })
+						// judged on the events the list really holds (encoding a list for transport drops the inner
+						// parent hashes and indices, so some corruptions do not survive it)
+						authAll, whyAll := c10Authentic(pk, c10Wire(world.Window(H+1, H, 0)).SignedAccumulator, el.Events)
+						switch {
+						case pan:
+							r.Violate("C10|Update.Prepend-panicked|eventless-update|"+class, fmt.Sprintf("base %d, %s: %s", bi, desc, msg), rep)
+						case perr == nil && authAll == nil:
+							r.Violate(fmt.Sprintf("C10|Update.Prepend-produced-unauthentic-update|eventless-update|premarked=%v|%s", premark, class), fmt.Sprintf("base %d, %s: %s", bi, desc, whyAll), rep)
+						case perr != nil && authAll != nil && len(combo) == 0 && form == "memory":
+							r.Violate("C10|authentic-update-rejected|Update.Prepend onto an eventless update", fmt.Sprintf("base %d: %v", bi, perr), rep)
+						case perr != nil && len(tail.Events) != 0:
+							r.Violate("C10|receiver-state-changed-on-rejection|Update.Prepend|eventless-update|"+class, desc, rep)
+						}
+						r.Outcome(fmt.Sprintf("prepend-to-eventless:auth=%v:ok=%v", authAll != nil, perr == nil && !pan))
 					}
 				}
 				// (4) EventList.Verify directly (fresh object) against the accumulator the receiver trusts
